@@ -33,12 +33,12 @@ class Config:
         return (f"{self.name}: {self.in1} x {self.in2} -> {self.out} {self.ins} norm={self.irrep_normalization}/{self.path_normalization} "
                 f"vars={self.in1_var},{self.in2_var},{self.out_var} shared={self.shared} spec={self.specialized} opt={self.optimize}")
 
-    def build(self, o3):
+    def build(self, o3, compile_right=False):
         ins = [(a, b, c, m, w, float(pw)) for (a, b, c, m, w, pw) in self.ins]
         return o3.TensorProduct(self.in1, self.in2, self.out, ins, in1_var=self.in1_var, in2_var=self.in2_var, out_var=self.out_var,
                                 irrep_normalization=self.irrep_normalization, path_normalization=self.path_normalization,
                                 shared_weights=self.shared, internal_weights=False,
-                                _specialized_code=self.specialized, _optimize_einsums=self.optimize)
+                                _specialized_code=self.specialized, _optimize_einsums=self.optimize, compile_right=compile_right)
 
 
 def mode_muls(mode, m):
